@@ -11,6 +11,7 @@ From FDO Require Fsim.Transfer.
 From FDO Require Svi.Devmod Svi.Modules.
 From FDO Require Fdo.Owner.
 From FDO Require Fdo.Extend.
+From FDO Require Store.Token.
 Local Open Scope N_scope.
 
 Definition unhexnum (b : bytes) : option N :=
@@ -795,6 +796,27 @@ Section Dispatch.
       end
     else None.
 
+  (* ---- bearer tokens of the SQLite store: store.token b:<secret> b:<token text> -> id b:.. | invalid | panic ---- *)
+  Definition O_b64dec (t : bytes) : option bytes :=
+    match oracle (s "b64url b:"%bs ++ hex t) with
+    | c :: r => if byte_eqb c (byte_of_N 111) (* "ok <hex>" *) then unhex (skipn 2 r) else None
+    | [] => None
+    end.
+  Definition O_mac256 (key msg : bytes) : bytes := O_hmac 256 key msg.
+  Definition run_token (kind : bytes) (args : list arg) : option bytes :=
+    if bytes_eqb kind (s "store.token"%bs) then
+      match args with
+      | [AB secret; AB token] =>
+        Some (match Token.session_id O_b64dec O_mac256 secret token with
+              | Ok (Some id) => s "id b:"%bs ++ hex id
+              | Ok None => s "invalid"%bs
+              | Panic _ => s "panic"%bs
+              | _ => s "err"%bs
+              end)
+      | _ => Some bad_args
+      end
+    else None.
+
   Definition dispatch (kind : bytes) (args : list arg) : bytes :=
     match run_cbor kind args with
     | Some r => r
@@ -828,7 +850,7 @@ Section Dispatch.
                                                                   | Some r => r
                                                                   | None => match run_fsim kind args with
                                                                             | Some r => r
-                                                                            | None => match run_devmod kind args with Some r => r | None => match run_owner kind args with Some r => r | None => match run_extend kind args with Some r => r | None => s "unknown-kind"%bs end end end
+                                                                            | None => match run_devmod kind args with Some r => r | None => match run_owner kind args with Some r => r | None => match run_extend kind args with Some r => r | None => match run_token kind args with Some r => r | None => s "unknown-kind"%bs end end end end
                                                                             end
                                                                   end
                                                         end
